@@ -241,9 +241,20 @@ func (p *Prog) Exec(line string) string {
 			}
 			return fmt.Sprintf("%s %s %s", sgn(i), bigToWords(i), accStr(a))
 		})
-	case "rat":
+	case "rat": // rat x [preset]: into nil, or into a *big.Rat that already holds a fraction
 		return p.Op(line, nil, func() string {
-			r, a := v(1).Rat(nil)
+			var dst *big.Rat
+			if len(t) > 2 {
+				switch atoi(t[2]) {
+				case 1:
+					dst = big.NewRat(2, 3)
+				case 2:
+					dst = big.NewRat(-7, 1000)
+				case 3:
+					dst = new(big.Rat)
+				}
+			}
+			r, a := v(1).Rat(dst)
 			if r == nil {
 				return "nil " + accStr(a)
 			}
